@@ -41,6 +41,7 @@ static size_t g_rootlen = 0;
 static char g_root2[4096];      /* optional second monitored tree ($VF_SHIM_ROOT2), e.g. a TMPDIR on another filesystem */
 static size_t g_root2len = 0;
 static int g_init = 0;
+static int g_stdio = 0;         /* $VF_SHIM_STDIO: writes to fd 1/2 are operation boundaries too (kind "stdio") */
 
 #define MAXRULES 32
 struct rule {
@@ -95,6 +96,7 @@ static void init(void)
     if (root2) { snprintf(g_root2, sizeof g_root2, "%s", root2); g_root2len = strlen(g_root2); }
     if (log) g_log = syscall(SYS_open, log, O_WRONLY | O_CREAT | O_APPEND | O_CLOEXEC, 0644);
     if (rules) parse_rules(rules);
+    if (getenv("VF_SHIM_STDIO")) g_stdio = 1;
 }
 __attribute__((constructor)) static void ctor(void) { init(); }
 
@@ -273,6 +275,15 @@ FILE *fopen64(const char *path, const char *mode) { return fopen(path, mode); }
 ssize_t write(int fd, const void *b, size_t n)
 {
     init();
+    if (g_stdio && (fd == 1 || fd == 2) && g_rootlen) {
+        int ie, sw;
+        struct op o = begin("stdio", fd == 1 ? "<stdout>" : "<stderr>", NULL, fd, (long)n, 0, &ie, &sw);
+        long r = raw_write(fd, b, n);
+        int e = errno;
+        end(o, r, e);
+        errno = e;
+        return r;
+    }
     char pb[4096];
     const char *p = g_rootlen ? fd_path(fd, pb, sizeof pb) : NULL;
     if (!in_root(p)) return raw_write(fd, b, n);
